@@ -1,12 +1,23 @@
 ------------------------------- MODULE RdkitBridge -------------------------------
 (* C18: biotite.interface.rdkit.to_mol / from_mol as far as the property reaches: atoms in the
-   same order (element, formal charge), every model <-> one conformer, and the two bond-type
-   tables.  BondType values as in MolFile (0 ANY .. 9 AROMATIC).
+   same order (element, formal charge), every model <-> one conformer, the two bond-type
+   tables, and the OPTIONS of the two calls.  BondType values as in MolFile (0 ANY .. 9 AROMATIC).
 
    RDKit bond types are strings here: "UNSPECIFIED", "SINGLE", "DOUBLE", "TRIPLE", "QUADRUPLE",
-   "AROMATIC", "DATIVE".  Options of the calls that the round-trip claim needs:
-   to_mol(explicit_hydrogen=True) and from_mol(add_hydrogen=False) (otherwise RDKit adds hydrogen
-   atoms by its own valence model); use_dative_bonds selects DATIVE for COORDINATION. *)
+   "AROMATIC", "DATIVE".
+
+   Options (a record o):
+     o.eh     to_mol(explicit_hydrogen=...)  "None" | "True" | "False"
+     o.kek    to_mol(kekulize=...)           aromatic types are written as their plain orders
+     o.dative to_mol(use_dative_bonds=...)   DATIVE for COORDINATION
+     o.ah     from_mol(add_hydrogen=...)     "None" | "True" | "False"
+     o.conf   from_mol(conformer_id=...)     "all" (None) | "3D" | "first" (0)
+   The round trip is the identity on atoms exactly when RDKit has no implicit hydrogen to make
+   explicit: every atom was marked "no implicit hydrogens" (explicit_hydrogen=True, or the default
+   with a hydrogen atom in the molecule) or from_mol does not add hydrogens (add_hydrogen=False, or
+   the default with a hydrogen atom in the molecule).  Otherwise the molecule comes back as a prefix
+   of the result - same atoms in the same order, same bonds - followed by the hydrogen atoms RDKit
+   adds, each with one SINGLE bond to an atom of the molecule. *)
 EXTENDS MolFile
 
 AromaticTypes == {5, 6, 7, 9}
@@ -14,6 +25,20 @@ AromaticTypes == {5, 6, 7, 9}
 RdElements == {T("C"), T("N"), T("O"), T("H"), T("S"), T("P"), T("F"), T("CL"), T("BR"), T("FE"), T("NA"), T("ZN")}
 Dom_Rd(m) == Dom_Mol(m) /\ CoordsFinite(m)
              /\ \A i \in 1..NAtoms(m) : m.atoms[i].elem \in RdElements /\ m.atoms[i].chg \in -15..15
+
+(* ------------------------------------------------------------------ options *)
+TriState == {"None", "True", "False"}
+ConfSel == {"all", "3D", "first"}
+Opt(eh, ah, kek, dative, conf) == [eh |-> eh, ah |-> ah, kek |-> kek, dative |-> dative, conf |-> conf]
+AllOpts == [eh : TriState, ah : TriState, kek : BOOLEAN, dative : BOOLEAN, conf : ConfSel]
+DefaultOpt == Opt("None", "None", FALSE, FALSE, "all")
+(* the combination in which RDKit's hydrogen model plays no part, whatever the molecule *)
+PlainOpt(dative) == Opt("True", "False", FALSE, dative, "all")
+
+TH == T("H")
+HasH(m) == \E i \in 1..NAtoms(m) : UpperText(m.atoms[i].elem) = TH
+
+(* ------------------------------------------------------------------ the two bond-type tables *)
 (* to_mol, as documented: _BIOTITE_TO_RDKIT_BOND_TYPE, COORDINATION -> DATIVE iff use_dative_bonds *)
 ToRd(t, dative) ==
   CASE t = 0 -> "UNSPECIFIED" [] t = 1 -> "SINGLE" [] t = 2 -> "DOUBLE" [] t = 3 -> "TRIPLE" [] t = 4 -> "QUADRUPLE"
@@ -23,30 +48,114 @@ ToRd(t, dative) ==
 FromRd(r) ==
   CASE r = "UNSPECIFIED" -> 0 [] r = "SINGLE" -> 1 [] r = "DOUBLE" -> 2 [] r = "TRIPLE" -> 3 [] r = "QUADRUPLE" -> 4
     [] r = "DATIVE" -> 8 [] OTHER -> 0
+(* kekulize=True: BondList.remove_aromaticity() before the table is applied *)
+Dearom(t) == CASE t = 5 -> 1 [] t = 6 -> 2 [] t = 7 -> 3 [] t = 9 -> 0 [] OTHER -> t
 (* the types RDKit can express as they are *)
 ExpressibleRd(dative) == {0, 1, 2, 3, 4} \cup (IF dative THEN {8} ELSE {})
-(* The types a bond may have after to_mol -> from_mol.  An aromatic bond returns kekulized
+(* The types a bond may have after to_mol -> from_mol (declarative).  An aromatic bond returns kekulized
    (AROMATIC_SINGLE / AROMATIC_DOUBLE, RDKit's choice among the valid Kekule structures) or, where
-   RDKit cannot kekulize (no ring), as the generic AROMATIC. *)
-RdImages(t, dative) == IF t \in AromaticTypes THEN {5, 6, 9} ELSE {FromRd(ToRd(t, dative))}
+   RDKit cannot kekulize (no ring), as the generic AROMATIC; with kekulize=True it returns as its
+   plain order (the generic AROMATIC has none: ANY). *)
+RdImagesK(t, dative, kek) ==
+  IF t \in AromaticTypes THEN (IF kek THEN {Dearom(t)} ELSE {5, 6, 9}) ELSE {FromRd(ToRd(t, dative))}
+RdImages(t, dative) == RdImagesK(t, dative, FALSE)
 
 (* a valid Kekule assignment of a ring whose bonds are all aromatic: every atom of the ring has
    exactly one AROMATIC_DOUBLE bond *)
 ValidKekule(n, B) ==
   /\ \A b \in B : b[3] \in {5, 6}
   /\ \A a \in 0..(n - 1) : Cardinality({b \in B : (b[1] = a \/ b[2] = a) /\ b[3] = 6}) = 1
+(* the same for the aromatic part of a molecule that has other atoms as well (substituents, hydrogens):
+   A = the atoms with an aromatic bond in m, B = the bonds of the result *)
+AromaticAtoms(m) == {a \in 0..(NAtoms(m) - 1) : \E k \in 1..NBonds(m) : m.bonds[k][3] \in AromaticTypes /\ (m.bonds[k][1] = a \/ m.bonds[k][2] = a)}
+ValidKekuleOn(A, B) ==
+  LET R == {b \in B : b[1] \in A /\ b[2] \in A} IN
+  /\ \A b \in R : b[3] \in {5, 6}
+  /\ \A a \in A : Cardinality({b \in R : (b[1] = a \/ b[2] = a) /\ b[3] = 6}) = 1
 
-(* Known-bad input (recorded finding): use_dative_bonds=True has no effect, COORDINATION becomes SINGLE *)
+(* ------------------------------------------------------------------ the two calls, step by step *)
+(* to_mol: the RDKit molecule as far as the round trip depends on it.  noimp = SetNoImplicit(True). *)
+RejectedMol == [oc |-> "Rejected", atoms |-> <<>>, bonds |-> <<>>]
+ToMol(m, o) ==
+  LET hasH == HasH(m)
+      explicit == IF o.eh = "None" THEN hasH ELSE o.eh = "True"
+  IN IF o.eh = "False" /\ hasH THEN RejectedMol              \* documented BadStructureError
+     ELSE [oc |-> "ok",
+           atoms |-> [i \in 1..NAtoms(m) |-> [elem |-> UpperText(m.atoms[i].elem), chg |-> m.atoms[i].chg, noimp |-> explicit]],
+           bonds |-> [k \in 1..NBonds(m) |->
+                        <<m.bonds[k][1], m.bonds[k][2], ToRd(IF o.kek THEN Dearom(m.bonds[k][3]) ELSE m.bonds[k][3], o.dative)>>]]
+
+(* RDKit's count of implicit hydrogens.  It is decided here only for what every chemistry text agrees
+   on: a neutral atom of C, N, O, F, Cl, Br whose bonds are plain SINGLE / DOUBLE / TRIPLE bonds within
+   its default valence lacks (valence - sum of orders) hydrogens.  Everything else (charged atoms,
+   metals, S, P, aromatic / unspecified / dative bonds, exceeded valences) is RDKit's business. *)
+Unspecified == -1
+DefaultValence(e) ==
+  CASE e = T("C") -> 4 [] e = T("N") -> 3 [] e = T("O") -> 2 [] e \in {T("F"), T("CL"), T("BR")} -> 1 [] OTHER -> 0
+RdOrder(r) == CASE r = "SINGLE" -> 1 [] r = "DOUBLE" -> 2 [] r = "TRIPLE" -> 3 [] OTHER -> 0
+ImplicitHs(rd, i) ==
+  LET a == rd.atoms[i]
+      at == SelectSeq(rd.bonds, LAMBDA b : b[1] = i - 1 \/ b[2] = i - 1)
+      sum == FoldLeft(LAMBDA acc, b : acc + RdOrder(b[3]), 0, at)
+  IN IF a.noimp THEN 0
+     ELSE IF DefaultValence(a.elem) > 0 /\ a.chg = 0 /\ (\A k \in 1..Len(at) : RdOrder(at[k][3]) > 0) /\ sum <= DefaultValence(a.elem)
+          THEN DefaultValence(a.elem) - sum
+          ELSE Unspecified
+
+(* from_mol: add_hydrogen (default: iff the Mol has no hydrogen atom), then atoms and bonds in order;
+   hs[i] = number of hydrogen atoms appended for atom i (0: none may appear, Unspecified: RDKit decides) *)
+FromMol(rd, o) ==
+  LET explicitH == \E i \in 1..Len(rd.atoms) : rd.atoms[i].elem = TH           \* _has_explicit_hydrogen
+      add == IF o.ah = "None" THEN ~explicitH ELSE o.ah = "True"
+  IN [atoms |-> [i \in 1..Len(rd.atoms) |-> [elem |-> rd.atoms[i].elem, chg |-> rd.atoms[i].chg]],
+      hs |-> [i \in 1..Len(rd.atoms) |-> IF add THEN ImplicitHs(rd, i) ELSE 0],
+      bonds |-> {<<rd.bonds[k][1], rd.bonds[k][2],
+                   IF rd.bonds[k][3] = "AROMATIC" THEN {5, 6, 9} ELSE {FromRd(rd.bonds[k][3])}>> : k \in 1..Len(rd.bonds)}]
+
+(* Known-bad input (recorded finding, repaired since): use_dative_bonds=True has no effect, COORDINATION becomes SINGLE *)
 KB_Dative(m, dative) == dative /\ \E k \in 1..NBonds(m) : m.bonds[k][3] = 8
-(* expected result: the stack of all models, same atoms, bonds with their image sets *)
-ExpectRd(m, nmodels, dative) ==
-  [nmodels |-> nmodels,
-   kb |-> IF KB_Dative(m, dative) THEN {"Dative"} ELSE {},
-   atoms |-> [i \in 1..NAtoms(m) |-> [elem |-> UpperText(m.atoms[i].elem), chg |-> m.atoms[i].chg]],
-   bonds |-> {<<m.bonds[k][1], m.bonds[k][2], RdImages(m.bonds[k][3], dative)>> : k \in 1..NBonds(m)}]
 
-(* S1: the tables are inverse on what RDKit can express *)
+(* classes of molecules the hydrogen options distinguish *)
+OpenValence(m) ==     \* some atom gets a hydrogen under every option combination in which hydrogens are implicit and added
+  LET rd == [oc |-> "ok",
+             atoms |-> [i \in 1..NAtoms(m) |-> [elem |-> UpperText(m.atoms[i].elem), chg |-> m.atoms[i].chg, noimp |-> FALSE]],
+             bonds |-> [k \in 1..NBonds(m) |-> <<m.bonds[k][1], m.bonds[k][2], ToRd(m.bonds[k][3], TRUE)>>]]
+  IN \E i \in 1..NAtoms(m) : ImplicitHs(rd, i) > 0
+MolClass(m) == IF HasH(m) THEN "hasH" ELSE IF OpenValence(m) THEN "noH-open" ELSE "noH-other"
+
+(* expected result of to_mol(m as a stack of nmodels models, o) -> from_mol(o): the molecule is the
+   prefix of the result; all selected models, atoms in order, bonds with their image sets *)
+ExpectRdOpt(m, nmodels, o) ==
+  Bind(ToMol(m, o), LAMBDA rd :
+    IF rd.oc = "Rejected"
+    THEN [oc |-> "Rejected", nmodels |-> 0, stack |-> FALSE, kb |-> {}, atoms |-> <<>>, hs |-> <<>>, bonds |-> {}, cls |-> MolClass(m)]
+    ELSE Bind(FromMol(rd, o), LAMBDA r :
+      [oc |-> "ok",
+       nmodels |-> IF o.conf = "first" THEN 1 ELSE nmodels,          \* every model is one 3D conformer
+       stack |-> o.conf # "first",                                   \* an integer id returns an AtomArray
+       kb |-> IF KB_Dative(m, o.dative) THEN {"Dative"} ELSE {},
+       atoms |-> r.atoms, hs |-> r.hs, bonds |-> r.bonds, cls |-> MolClass(m)]))
+ExpectRd(m, nmodels, dative) == ExpectRdOpt(m, nmodels, PlainOpt(dative))
+
+(* ------------------------------------------------------------------ declarative statements (S1) *)
+(* when the round trip has to be the identity on atoms and when the call is refused, per option combination *)
+RefusalExpected(m, o) == o.eh = "False" /\ HasH(m)
+IdentityExpected(m, o) == o.eh = "True" \/ HasH(m) \/ o.ah = "False"
+OptionTableOK(m, nmodels, o, x) ==
+  /\ (x.oc = "Rejected") <=> RefusalExpected(m, o)
+  /\ x.oc = "ok" =>
+       /\ Len(x.atoms) = NAtoms(m) /\ Len(x.hs) = NAtoms(m)
+       /\ \A i \in 1..NAtoms(m) : x.atoms[i] = [elem |-> UpperText(m.atoms[i].elem), chg |-> m.atoms[i].chg]
+       /\ IdentityExpected(m, o) => \A i \in 1..NAtoms(m) : x.hs[i] = 0
+       \* where hydrogens are implicit and added, an open valence of the organic subset is filled
+       /\ (~IdentityExpected(m, o) /\ MolClass(m) = "noH-open") => \E i \in 1..NAtoms(m) : x.hs[i] > 0
+       /\ x.bonds = {<<m.bonds[k][1], m.bonds[k][2], RdImagesK(m.bonds[k][3], o.dative, o.kek)>> : k \in 1..NBonds(m)}
+       /\ x.nmodels = (IF o.conf = "first" THEN 1 ELSE nmodels)
+
+(* S1: the tables are inverse on what RDKit can express; kekulize=True maps the aromatic orders to plain ones *)
 TablesOK == \A dative \in BOOLEAN : \A t \in ExpressibleRd(dative) : FromRd(ToRd(t, dative)) = t
 ASSUME TablesOK
 ASSUME FromRd(ToRd(8, FALSE)) = 1 /\ FromRd(ToRd(8, TRUE)) = 8
+ASSUME RdImagesK(5, FALSE, TRUE) = {1} /\ RdImagesK(6, FALSE, TRUE) = {2} /\ RdImagesK(7, FALSE, TRUE) = {3} /\ RdImagesK(9, FALSE, TRUE) = {0}
+ASSUME \A t \in 0..9 : \A d \in BOOLEAN : RdImagesK(t, d, FALSE) = RdImages(t, d)
 =============================================================================
